@@ -403,6 +403,19 @@ class ExpandTrim(Simple, DisjointUnionStrategy[WC, W]):
     can still follow): children of one union then carry different parameter sets, and a parent parameter that is
     not passed to a child must be 0 there."""
 
+    def __init__(self, always=False, ignore_parent=False, inferrable=True, possibly_empty=True, workable=True):
+        # always: apply to every non-atom class (then it is Expand with the children in the opposite order)
+        self.always = always
+        super().__init__(ignore_parent=ignore_parent, inferrable=inferrable, possibly_empty=possibly_empty, workable=workable)
+
+    def to_jsonable(self):
+        d = super().to_jsonable()
+        d["always"] = self.always
+        return d
+
+    def __repr__(self):
+        return "ExpandTrim(always=%s)" % self.always
+
     def _kept(self, c, child_prefix, atom):
         fut = set() if atom else future_letters(c, child_prefix)
         keep = []
@@ -412,11 +425,11 @@ class ExpandTrim(Simple, DisjointUnionStrategy[WC, W]):
         return tuple(keep)
 
     def decomposition_function(self, c):
-        if c.just_prefix or not c.stats:
+        if c.just_prefix or (not c.stats and not self.always):
             return None
         kids = [c.with_(prefix=c.prefix + a, stats=self._kept(c, c.prefix + a, False)) for a in reversed(c.alphabet)]
         kids.append(c.with_(just_prefix=True, stats=self._kept(c, c.prefix, True)))
-        if all(k.stats == c.stats for k in kids):
+        if all(k.stats == c.stats for k in kids) and not self.always:
             return None
         return tuple(kids)
 
@@ -880,7 +893,7 @@ def basic_pack(**kw):
 def make_pack(sym=False, inf=False, merge=False, iterative=False, factory=False, parent_factory=False,
               prefix_verified=None, prefix_verified_rev=None, empty_prefix_verified=False, two_sets=False, no_initial=False, name=None, expand=True,
               split=False, oneway=False, lazy=False, trim=False, rename=False, mono=False, fac2=False, cycle=False,
-              redundant_parent=False, brute=None):
+              redundant_parent=False, brute=None, trimonly=False):
     inferral = ([MinimizePatterns()] if inf else []) + ([MergeStats()] if merge else []) + ([RenameStats()] if rename else [])
     exp = [ExpandFactory()] if factory else [Expand()]
     if parent_factory:
@@ -889,6 +902,8 @@ def make_pack(sym=False, inf=False, merge=False, iterative=False, factory=False,
         exp = exp + [AddRedundant()]
     if trim:
         exp = [ExpandTrim()] + exp
+    if trimonly:
+        exp = [ExpandTrim(always=True)]
     if fac2:
         exp = [RemoveThenExpandFactory()]
     if redundant_parent:
